@@ -433,14 +433,16 @@ def hints_module_owner(prog: Program, rep: Report, rule: str):
         rep.held(rule, hs.qualname, hs.loc, "no module is passed for string annotations of a signature", detail="hints-module-owner", nontrivial=False)
         return
     own = lambda y: (T.is_call_to(y, "builtins.getattr") and len(y[2]) >= 2 and y[2][1] == ("const", "__module__") and T.contains(y[2][0], lambda z: z == obj)) or (y[0] == "attr" and y[2] == "__module__" and T.contains(y[1], lambda z: z == obj))  # noqa: E731
-    alias_test = lambda y: T.is_call_to(y, "typing.get_origin", "inspect.isclass", f"{C.INSP}.issubscriptedgeneric", f"{C.INSP}.isgeneric") and y[2][:1] == (obj,)  # noqa: E731
+    alias_test = lambda y: T.is_call_to(y, "typing.get_origin", f"{C.INSP}.issubscriptedgeneric", f"{C.INSP}.isgeneric") and y[2][:1] == (obj,)  # noqa: E731
     bad = [m for m in mods if T.contains(m, own) and not T.contains(m, alias_test)]
     # ... and for a class the owner is the function that carries the signature (an inherited __init__ lives in the module of
     # the base class); annotations that are objects containing references (Optional["Node"]) are taken evaluated in that
     # function's namespace (typing.get_type_hints(carrier)), never left to be looked up from whoever calls the library
     carrier = lambda y: (T.is_call_to(y, "builtins.getattr") and y[2][:2] == (obj, ("const", "__init__"))) or y == ("attr", obj, "__init__")  # noqa: E731
     from_carrier = any(T.contains(m, carrier) for m in mods)
-    evaluated = any(T.contains(tm, lambda y: T.is_call_to(y, "typing.get_type_hints") and y[2] and T.contains(y[2][0], carrier)) for p in P.paths_of(prog, hs) for tm in p.all_terms())
+    is_eval = lambda y: T.is_call_to(y, "typing.get_type_hints") and y[2] and T.contains(y[2][0], carrier)  # noqa: E731
+    # ... and what it yields is what gets stored for a parameter (not merely computed)
+    evaluated = any(e[0] == "setitem" and T.contains(e[3], is_eval) for p in P.paths_of(prog, hs) for e in p.events) or any(p.exit[0] == "return" and T.contains(p.exit[1], is_eval) for p in P.paths_of(prog, hs))
     rep.check(from_carrier and evaluated, rule, hs.qualname, hs.loc, "annotations of a signature are resolved in the namespace of the function that carries them", "annotations read from a signature are resolved relative to the *class* and, when they are objects with references inside (nxt: Optional['Node'], kids: list['Tree']), not at all: the inner reference has no module and is looked up from the stack of whoever calls the library -- NameError when the model lives in another module, or the caller's unrelated class of the same name; a subclass in another module that inherits an annotated __init__ has its string annotations evaluated in its own module", detail="hints-carrier")
     rep.check(not bad, rule, hs.qualname, hs.loc, "the object's own __module__ is used for string annotations only when the object is not an alias", "string annotations of a signature are always looked up in obj.__module__: for an alias such as tuple['UserId', int] that attribute is the module of the origin class ('builtins'), so the member is evaluated there -- NameError: name 'UserId' is not defined, although list['UserId'] and Tuple['UserId', int] work", detail="hints-module-owner")
 
